@@ -63,23 +63,28 @@ def canonSymtab (h0 : CHeap) (d : Delta) : List (Text × Nat) :=
 
 /-! ## diagnostics (ad hoc; only the Boolean functions of PrepareCheck.lean are proved about) -/
 
-def lamWhy (objs : Option (List LambdaM)) (cl : CLambda) : String :=
+def lamWhy (objs : Option (List LambdaM × List LambdaM)) (h : CHeap) (cl : CLambda) : String :=
   match objs with
-  | some objs =>
+  | some (tbl, objs) =>
     if !(objs.any (loadedB · cl)) then
-      (if objs.any (fun m => encListB m.bc cl.bc) then "lambda-iof" else "lambda-not-loaded")
+      (if !(objs.any (fun m => encListB m.bc cl.bc)) then "lambda-not-loaded"
+       else if !(objs.any (fun m => encListB m.bc cl.bc && cl.envmap.all (iofOkB m))) then "lambda-iof"
+       else "lambda-envlen")
+    else if !(objs.any (fun m => loadedB m cl && immLoadedB tbl h m cl)) then "lambda-imm"
     else if !npArgsB cl then "lambda-np" else if !plainB cl then "lambda-plain" else "lambda?"
   | none =>
     if !(Verify.verifyLam cl.bc).isSome then "code-verify" else
     if !noIofB cl then "code-iof" else
     if !decide (Verify.argNeed cl.bc ≤ cl.args.length) then "code-argneed" else
     if !lamOkB cl then "code-lamok" else
-    if !npArgsB cl then "code-np" else if !plainB cl then "code-plain" else "code?"
+    if !npArgsB cl then "code-np" else if !plainB cl then "code-plain" else
+    if !immTF (capAt h) cl.bc then "code-env-imm" else if !sitesFB h cl then "code-env-sites" else "code?"
 
-def cellWhy (objs : Option (List LambdaM)) (Q : CLambda → Bool) (h : CHeap) (c : CCell) : Option String :=
-  if !newCellB Q c then
+def cellWhy (objs : Option (List LambdaM × List LambdaM)) (Q : CHeap → CLambda → Bool) (h : CHeap) (c : CCell) :
+    Option String :=
+  if !newCellB (Q h) c then
     some (match c with
-      | .lambda cl => lamWhy objs cl
+      | .lambda cl => lamWhy objs h cl
       | .val _ => "newcell-val"
       | .lexEnv _ => "newcell-env"
       | .cont _ => "newcell-cont"
@@ -88,9 +93,10 @@ def cellWhy (objs : Option (List LambdaM)) (Q : CLambda → Bool) (h : CHeap) (c
     let bad := (Marwood.Heap.crefs true (eraseC c)).filter fun y => !nfB h y
     some s!"crefs:{bad.head?.getD 0}"
   else if !cellPB h c then some "cellp"
+  else if !dataEB h c then some "data-env"
   else none
 
-def replayWhy (objs : Option (List LambdaM)) (Q : CLambda → Bool) (after : CHeap) : Nat → Nat → CHeap → Except String CHeap
+def replayWhy (objs : Option (List LambdaM × List LambdaM)) (Q : CHeap → CLambda → Bool) (after : CHeap) : Nat → Nat → CHeap → Except String CHeap
   | 0, _, h => .ok h
   | k + 1, i, h =>
     let a := (calloc h).2
@@ -133,7 +139,7 @@ def resymWhy (h after : CHeap) : Option String :=
   if !(after.globSyms.all fun y => h.globSyms.contains y) then some "bad resym globsyms-new" else
   if !(h.globSyms.all fun y => after.globSyms.contains y) then some "bad resym globsyms-lost" else none
 
-def stepsWhy (objs : Option (List LambdaM)) (Q : CLambda → Bool) (before after : CHeap) : Option String :=
+def stepsWhy (objs : Option (List LambdaM × List LambdaM)) (Q : CHeap → CLambda → Bool) (before after : CHeap) : Option String :=
   match replayWhy objs Q after (newCount before after) 0 before with
   | .error e => some e
   | .ok h =>
@@ -165,7 +171,8 @@ def answerOk (e : Datum) (s s' : St CHeap) (entry : Nat) (ipO : Nat) (rendered :
       | some w => w
       | none =>
         let objs := lam :: ent :: st.lambdas
-        match stepsWhy (some objs) (loadedQB objs) s.heap s'.heap with
+        let tbl := st.lambdas ++ [lam]
+        match stepsWhy (some (tbl, objs)) (loadedQB tbl objs) s.heap s'.heap with
         | some w => w
         | none =>
           if !entryB ent s'.heap entry then "bad entry not-loaded" else
@@ -179,7 +186,7 @@ def answerErr (e : Datum) (s s' : St CHeap) : String :=
     if garbageFastB s s' || garbageB s s' then "ok" else
     match regsWhy s s' with
     | some w => w
-    | none => (stepsWhy none codeOkB s.heap s'.heap).getD "bad unknown"
+    | none => (stepsWhy none codeOkHB s.heap s'.heap).getD "bad unknown"
 
 def handle (args : List String) : Option String :=
   match args with
